@@ -290,7 +290,7 @@ static void ls_mut(spif_obj_t l, int j)
     case 4: SPIF_LIST_REVERSE(l); break;
     case 5: p = S_("a"); r = SPIF_LIST_REMOVE(l, p); SPIF_OBJ_DEL(p); if (r) SPIF_OBJ_DEL(r); break;
     case 6: r = SPIF_LIST_GET(l, 0); if (r) spif_str_append_char(SPIF_STR(r), '!'); break;
-    case 7: { spif_obj_t *a = SPIF_LIST_TO_ARRAY(l); if (a) free(a); break; }
+    case 7: { spif_obj_t *a = SPIF_LIST_TO_ARRAY(l); if (a) FREE(a); break; }
     case 8: { spif_iterator_t it = SPIF_LIST_ITERATOR(l); int g = 0; while (it && SPIF_ITERATOR_HAS_NEXT(it) && g++ < 64) (void) SPIF_ITERATOR_NEXT(it); if (it) SPIF_ITERATOR_DEL(it); break; }
     }
 }
@@ -323,7 +323,7 @@ static void vc_mut(spif_obj_t v, int j)
     case 1: SPIF_VECTOR_INSERT(v, S_("z")); break;
     case 2: p = S_("b"); r = SPIF_VECTOR_REMOVE(v, p); SPIF_OBJ_DEL(p); if (r) SPIF_OBJ_DEL(r); break;
     case 3: p = S_("q"); r = SPIF_VECTOR_REMOVE(v, p); SPIF_OBJ_DEL(p); if (r) SPIF_OBJ_DEL(r); break;
-    case 4: { spif_obj_t *a = SPIF_VECTOR_TO_ARRAY(v); if (a) free(a); break; }
+    case 4: { spif_obj_t *a = SPIF_VECTOR_TO_ARRAY(v); if (a) FREE(a); break; }
     case 5: { spif_iterator_t it = SPIF_VECTOR_ITERATOR(v); int g = 0; while (it && SPIF_ITERATOR_HAS_NEXT(it) && g++ < 64) (void) SPIF_ITERATOR_NEXT(it); if (it) SPIF_ITERATOR_DEL(it); break; }
     }
 }
@@ -333,7 +333,7 @@ static void vc_obs(spif_obj_t v, char *b, size_t n)
     size_t k = 0; int c = (int) SPIF_VECTOR_COUNT(v); spif_obj_t *a = c ? SPIF_VECTOR_TO_ARRAY(v) : NULL;
     k += (size_t) snprintf(b, n, "n=%d:", c);
     for (int i = 0; a && i < c && k + 40 < n; i++) k += (size_t) snprintf(b + k, n - k, "[%s]", stext(a[i]));
-    if (a) free(a);
+    if (a) FREE(a);
 }
 static const char *MPB[] = { "{}", "{a=1}", "{a=1,b=2}", "{a=2,b=1,c=1} (a overwritten)", "{b=1}" };
 static void mset(spif_map_t m, const char *k, const char *v) { spif_obj_t K = S_(k), V = S_(v); SPIF_MAP_SET(m, K, V); SPIF_OBJ_DEL(K); SPIF_OBJ_DEL(V); }
